@@ -205,17 +205,19 @@ def run(ctx):
         "samples": samples,
         "rule": "TLC (CodecGen) cuts every family of the tier -- query strings <=%d tokens; argument lists of 1/2/3 "
                 "pairs with total length <=%d/%d/%d; URIs path|key|value|fragment with total length <=%d crossed with "
-                "all 36 host x scheme x query-mode variants and <=%d with a variant chosen by hash; cookies key|value "
-                "<=%d crossed with all 1920 attribute records and <=%d with a hashed one; tokens {a %% + & = ; 4 1 G SP "
+                "all 45 host x scheme x query-mode variants and <=%d with a variant chosen by hash; cookies key|value "
+                "<=%d crossed with all 2880 attribute records and <=%d with a hashed one; tokens {a %% + & = ; 4 1 G SP "
                 "NUL 0xC3} -- into blocks; every block is walked exhaustively by the driver in Codec!Succ order and "
                 "CodecTrace re-derives each input (in = cur, cur' = Succ), so the families are covered completely. "
                 "The same for the escape-of-escape alphabet {%% 2 5 F E 4 1 / . a ? #}: query <=%d, 1-pair args <=%d, URIs <=%d. "
-                "Plus seeded random blocks (longer strings over the same tokens and over all 256 byte values). "
+                "Two more bits are derived from each input by hash: string vs []byte setters, and URI.Parse(nil, s) vs "
+                "URI.Parse(otherHost, s); argument lists are built in 4 ways (Add / Set / after a ParseBytes of the "
+                "value-less keys on the same object). Plus seeded random blocks (longer strings over the same tokens and over all 256 byte values). "
                 "evaluations = observation lines validated (one input each: setters -> string -> parser on the real "
                 "code). Non-trivial = the string form contains an escape or '+' (Args: and the parser found an "
                 "argument; Cookie: judged, i.e. non-empty key without '=', and at least one attribute written); distinct = distinct (kind, string form), "
                 "counted by the driver with a 64-bit hash set."
-                % ((4, 4, 3, 2, 2, 3, 1, 3, 4, 3, 3) if q else (6, 5, 4, 3, 3, 4, 2, 5, 5, 4, 4)),
+                % ((4, 4, 3, 2, 2, 3, 1, 3, 4, 3, 3) if q else (6, 5, 4, 3, 2, 4, 2, 5, 5, 4, 4)),
     })
     ctx.assumptions += [
         "TLC and the CommunityModules Json reader are trusted; recorded byte strings use an injective printable "
